@@ -5,3 +5,7 @@ open Biogo.Properties.C01
 #print axioms fasta_roundtrip
 #print axioms fasta_write_count
 #print axioms fasta_renders_read
+#print axioms fastq_roundtrip
+#print axioms fastq_roundtrip_plain
+#print axioms fastq_write_count
+#print axioms fastq_score_range
